@@ -7,14 +7,15 @@ import Resynth.Model.LR
 namespace Resynth
 
 /-- `BufRead::lines`: split at `\n`; a stripped `\n` also strips one preceding `\r`; a final
-line without terminator is a line; the empty input has no lines -/
+line without terminator is a line; the empty input has no lines. `cur` is the current line
+reversed. -/
 def splitLinesAux : Bytes → Bytes → List Bytes
-  | [], cur => if cur.isEmpty then [] else [cur]
+  | [], cur => if cur.isEmpty then [] else [cur.reverse]
   | b :: rest, cur =>
     if b == 10 then
-      let ln := if cur.getLast? == some 13 then cur.dropLast else cur
-      ln :: splitLinesAux rest []
-    else splitLinesAux rest (cur ++ [b])
+      let cur := if cur.head? == some 13 then cur.tail else cur
+      cur.reverse :: splitLinesAux rest []
+    else splitLinesAux rest (b :: cur)
 
 def splitLines (b : Bytes) : List Bytes := splitLinesAux b []
 
